@@ -44,6 +44,14 @@ deriving Repr, BEq, Inhabited
 
 abbrev InEdges := List (String × String)
 
+def mapOut (f : ONode → ONode) (g : OEdge → OEdge) (o : Out) : Out := { nodes := o.nodes.map f, edges := o.edges.map g }
+
+/-- a result with every coordinate, size and route point multiplied by c: the relation C17 asks for (used by the driver's scale
+    predicate and by the theorem `C17_layoutModelS_scale`) -/
+def scaleOut (c : Rat) (o : Out) : Out :=
+  mapOut (fun n => { n with x := c * n.x, y := c * n.y, w := c * n.w, h := c * n.h })
+         (fun e => { e with pts := e.pts.map (·.map fun p => (c * p.1, c * p.2)) }) o
+
 /-- distinct ids in first-appearance order -/
 def inputIds (es : InEdges) : List String := dedup (es.flatMap fun e => [e.1, e.2])
 
